@@ -281,9 +281,13 @@ def _run_array(inp, work):
             kw['dtype'] = np.float32          # tokens are whole numbers below 2^24: exact in single precision
         if inp.get('kw') in ('compression', 'both'):
             kw['compression'] = 'gzip'
+        def _names(l):
+            return [getattr(d_, 'name', None) for d_ in l] if isinstance(l, list) else None
+        names_before = [_names(pos), _names(spec)]
         r = call(ArrayTranslator().translate, path, 'MyData', raw, quantity, 'nA', pos, spec,
                  translator_name='MyTranslator', parm_dict=inp['parms'], extra_dsets=extras, **kw)
-    out = {'before': before, 'after': _path_state(path), 'desc': desc}
+        args_mutated = names_before != [_names(pos), _names(spec)]
+    out = {'before': before, 'after': _path_state(path), 'desc': desc, 'args_mutated': args_mutated}
     if r[0] == 'err':
         out['err'], out['cls'] = r[1], r[2]
         return out
@@ -323,6 +327,9 @@ def _expected_array_map(inp):
 
 def _oracle_array(inp, obs):
     fails = []
+    if obs.get('args_mutated'):
+        fails.append('arguments-mutated: the descriptor lists handed to translate() are in another order after the call (the '
+                     'next channel translated with the same lists gets other coordinates)')
     tag = ' (input %s, extras %s)' % (inp['input'], inp['extras'])
     if inp['bad']:
         if 'err' not in obs:
